@@ -247,13 +247,18 @@ def gen_sparse_update_session(rng):
     extra = [{i: F(rng.choice([1, 2, 3, -1, -2, -3])) for i in rng.shuffle(list(range(n)))[:3]} for _ in range(40)]
     pool = cols + extra
     ops = [("b", {i: F(1)}) for i in rng.shuffle(list(range(n)))[:6]]
+    used = []
     for k in range(40):
-        pos = rng.below(n)
+        # the same basis position is replaced again and again (row etas of one pivot row pile up) as often as a new one
+        pos = rng.choice(used) if used and rng.chance(0.5) else rng.below(n)
+        used.append(pos)
         ops.append(("u", pos, n + k))
         ops += [("b", {i: F(1)}) for i in [pos] + rng.shuffle(list(range(n)))[:4]]
+        ops += [("f", {i: F(1)}) for i in [pos] + rng.shuffle(list(range(n)))[:3]]
         if rng.chance(0.3):
             ops.append(("f", svec(rng, n)))
     ops += [("b", {i: F(1)}) for i in range(n)]
+    ops += [("f", {i: F(1)}) for i in range(n)]
     par = [-1, -1, -1, -1]
     lines = ["fnew %d %d %s %s %s" % (n, len(pool), " ".join(sv_line(c) for c in pool), " ".join(str(k) for k in range(n)),
                                       " ".join(str(p) for p in par))]
